@@ -2,6 +2,7 @@ package main
 
 import (
 	"fmt"
+	"sort"
 	"go/ast"
 	"go/constant"
 	"go/token"
@@ -23,6 +24,8 @@ type Env struct {
 	at     *ssa.BasicBlock
 	errs   *[]string
 	bound  map[string]bool
+	lets   map[string]ast.Expr
+	depth  int
 }
 
 func (fx *FuncCtx) clauseEnv(st, old *State, rets []*Val) *Env {
@@ -46,6 +49,9 @@ func (fx *FuncCtx) clauseEnv(st, old *State, rets []*Val) *Env {
 		pkg = fx.fn.Parent().Pkg.Pkg
 	}
 	e := &Env{fx: fx, st: st, old: old, vars: vars, pkg: pkg, errs: &fx.clauseErrs}
+	if fx.ct != nil {
+		e.lets = fx.ct.Lets
+	}
 	if rets == nil {
 		e.fn = fx.fn
 		e.at = fx.curBlock
@@ -270,6 +276,11 @@ func (e *Env) ident(name string) *Val {
 	}
 	if v, ok := e.vars[name]; ok {
 		return v
+	}
+	if le, ok := e.lets[name]; ok && e.depth < 20 {
+		ne := *e
+		ne.depth++
+		return ne.eval(le)
 	}
 	if e.pkg != nil {
 		if obj := e.pkg.Scope().Lookup(name); obj != nil {
@@ -577,14 +588,47 @@ func (e *Env) call(x *ast.CallExpr) *Val {
 		id := x.Args[0].(*ast.Ident)
 		fx.qn++
 		bv := fmt.Sprintf("%s!%d", id.Name, fx.qn)
-		ne := e.bind(id.Name, &Val{T: bv, Ty: nil})
-		body := ne.eval(x.Args[1])
+		var bt types.Type
+		bodyX := x.Args[1]
+		if len(x.Args) == 3 {
+			bt = e.typeExpr(x.Args[1])
+			if bt == nil {
+				return e.errorf("allref: unknown type")
+			}
+			bodyX = x.Args[2]
+		}
+		ne := e.bind(id.Name, &Val{T: bv, Ty: bt})
+		ne.bound = map[string]bool{id.Name: true}
+		for k := range e.bound {
+			ne.bound[k] = true
+		}
+		body := ne.eval(bodyX)
 		return &Val{T: "(forall ((" + bv + " Int)) " + body.T + ")", Ty: boolT}
+	case "allif":
+		id := x.Args[0].(*ast.Ident)
+		fx.qn++
+		bv := fmt.Sprintf("%s!%d", id.Name, fx.qn)
+		ne := e.bind(id.Name, &Val{T: bv, Ty: types.NewInterfaceType(nil, nil)})
+		ne.bound = map[string]bool{id.Name: true}
+		for k := range e.bound {
+			ne.bound[k] = true
+		}
+		body := ne.eval(x.Args[1])
+		return &Val{T: "(forall ((" + bv + " If)) " + body.T + ")", Ty: boolT}
+	case "unchanged":
+		if e.old == nil {
+			return e.errorf("unchanged() needs a pre-state")
+		}
+		return &Val{T: fx.unchangedTerm(e.st, e.old), Ty: boolT}
 	case "allstr", "exstr":
 		id := x.Args[0].(*ast.Ident)
 		fx.qn++
 		bv := fmt.Sprintf("%s!%d", id.Name, fx.qn)
 		ne := e.bind(id.Name, &Val{T: bv, Ty: strT})
+		ne.bound = map[string]bool{id.Name: true}
+		for k := range e.bound {
+			ne.bound[k] = true
+		}
 		body := ne.eval(x.Args[1])
 		q := "forall"
 		if name == "exstr" {
@@ -661,6 +705,18 @@ func (e *Env) call(x *ast.CallExpr) *Val {
 			return e.errorf("iface: unknown type")
 		}
 		return fx.makeIface(e.st, &Val{T: v.T, Ty: t}, types.NewInterfaceType(nil, nil))
+	case "upd":
+		a, k, v := argv(0), argv(1), argv(2)
+		kt, vt := k.T, v.T
+		if kt == "" {
+			kt, _ = fx.ptrTerm(e.st, k)
+		}
+		if vt == "" {
+			vt, _ = fx.ptrTerm(e.st, v)
+		}
+		return &Val{T: "(store " + a.T + " " + kt + " " + vt + ")", Ty: a.Ty}
+	case "nokeys":
+		return &Val{T: "((as const (Array If Bool)) false)"}
 	case "min":
 		a, b := argv(0), argv(1)
 		return &Val{T: "(ite (<= " + a.T + " " + b.T + ") " + a.T + " " + b.T + ")", Ty: pickTy(a, b)}
@@ -690,6 +746,28 @@ func (e *Env) call(x *ast.CallExpr) *Val {
 		}
 		pat, _ := strconv.Unquote(lit.Value)
 		return &Val{T: fx.regexMatch(pat, s.T), Ty: boolT}
+	}
+	// predicates defined with `pred`
+	if pr, ok := fx.eng.specs.Preds[name]; ok && e.depth < 20 {
+		if len(pr.Params) != len(x.Args) {
+			return e.errorf("pred %s expects %d arguments", name, len(pr.Params))
+		}
+		ne := *e
+		ne.depth++
+		ne.vars = map[string]*Val{}
+		for k, v := range e.vars {
+			ne.vars[k] = v
+		}
+		ne.bound = map[string]bool{}
+		for k := range e.bound {
+			ne.bound[k] = true
+		}
+		for i, pn := range pr.Params {
+			ne.vars[pn] = argv(i)
+			ne.bound[pn] = true
+		}
+		ne.lets = nil
+		return ne.eval(pr.Body)
 	}
 	// conversions: T(x)
 	if len(x.Args) == 1 {
@@ -844,4 +922,41 @@ func (e *Env) errcode(v *Val) *Val {
 	}
 	t = ite(fmt.Sprintf("(= (if_tag %s) %d)", v.T, fx.u.tagOf(ec)), fx.unboxAs(e.st, v.T, ec).T, t)
 	return &Val{T: t, Ty: ec}
+}
+
+// unchangedTerm: every non-ghost heap component has, at every reference that
+// was allocated in the pre-state, the value it had in the pre-state.
+func (fx *FuncCtx) unchangedTerm(now, pre *State) string {
+	if now.Base != pre.Base {
+		return "false"
+	}
+	var cs []string
+	names := make([]string, 0, len(now.Heap))
+	for c := range now.Heap {
+		names = append(names, c)
+	}
+	sort.Strings(names)
+	for _, c := range names {
+		if strings.HasPrefix(c, "G$rd_pos") || strings.HasPrefix(c, "G$it_") {
+			continue // stream cursors and iterators are consumed, not stored state
+		}
+		t := now.Heap[c]
+		was, ok := pre.Heap[c]
+		if !ok {
+			was = fx.baseLookup(pre.Base, c)
+		}
+		if t == was {
+			continue
+		}
+		ks, _ := arraySorts(fx.compSort[c])
+		switch ks {
+		case "":
+			cs = append(cs, "(= "+t+" "+was+")")
+		case "Int":
+			cs = append(cs, "(forall ((x!u Int)) (=> (and (< 0 x!u) (<= x!u "+pre.Alloc+")) (= (select "+t+" x!u) (select "+was+" x!u))))")
+		default:
+			cs = append(cs, "(= "+t+" "+was+")")
+		}
+	}
+	return and(cs...)
 }
